@@ -421,6 +421,7 @@ type taskOut struct {
 func runConfig(t *testing.T, cfg Config, deadline time.Time) taskOut {
 	var mu sync.Mutex
 	o := taskOut{Cfg: cfg.Name}
+	leakedBefore := bubble.Leaked()
 	cut := false
 	sink := func(r execOut) {
 		mu.Lock()
@@ -440,7 +441,7 @@ func runConfig(t *testing.T, cfg Config, deadline time.Time) taskOut {
 	if cut {
 		o.Exhaustive, o.CapHit = false, "cut_after_violations"
 	}
-	o.Leaked = bubble.Leaked()
+	o.Leaked = bubble.Leaked() - leakedBefore
 	if len(st.Samples) > 0 {
 		o.Sample = &st.Samples[0]
 	}
